@@ -256,6 +256,57 @@ def run(ctx):
     ctx.floor(Rb, 9)
     ctx.stat("offered_gauss_rows", offered)
     consumer(ctx, tabs)
+    ctx.guard(fresh_tables, ctx)
+
+
+def fresh_tables(ctx):
+    """C15.d: each request builds its own arrays.  A functools cache around a table function (decorator, or a module-level rebinding
+    `gauss = lru_cache(...)(gauss)`) hands the *same* ndarray objects to every caller: after one caller has scaled the points / weights to its
+    cell in place, every later request of that (dim, order) returns a rule that is no longer exact.  The tables folded under C15.a / C15.b are
+    those of the first request only."""
+    import ast
+    from .common import CACHE_DECORATORS
+    from ..srcmodel import norm
+    R = "C15.d"
+    ctx.rule(R, "the three table functions hand out arrays built by the request itself: no functools cache as decorator and no module-level "
+             "rebinding of their names to a caching wrapper (shared ndarrays would make a request's rule depend on what earlier callers did to theirs)")
+    ctx.floor(R, 3)
+    mod = ctx.model.mod(MOD)
+    names = ("gauss", "gauss_reference_cell", "reference_cell_corners")
+    for n in names:
+        f = ctx.model.func(MOD, n)
+        ctx.instance(R)
+        decs = [norm(d.func) if isinstance(d, ast.Call) else norm(d) for d in getattr(f.node, "decorator_list", [])]
+        cached = [d for d in decs if d in CACHE_DECORATORS]
+        other = [d for d in decs if d not in CACHE_DECORATORS]
+        ctx.ob(R, f.qname, f"{n}: not wrapped in a functools cache", not cached,
+               f"decorated with `{cached[0] if cached else ''}`: the point / weight arrays of the first request are returned to every later caller; "
+               "a caller that maps them to its cell in place changes the rule for everybody", f.node, evidence=True)
+        if other:
+            ctx.ob(R, f.qname, f"{n}: decorators are understood", False, f"decorator `{other[0]}` not found to leave the returned arrays per-request", f.node)
+        # module-level rebinding of the public name
+        for s in mod.tree.body:
+            tg = []
+            if isinstance(s, ast.Assign):
+                tg = [t.id for t in s.targets if isinstance(t, ast.Name)]
+            elif isinstance(s, ast.AnnAssign) and isinstance(s.target, ast.Name) and s.value is not None:
+                tg = [s.target.id]
+            if n not in tg:
+                continue
+            v = s.value
+            inner = v
+            is_cache = False
+            while isinstance(inner, ast.Call):
+                d = norm(inner.func)
+                if d in CACHE_DECORATORS or (isinstance(inner.func, ast.Call) and norm(inner.func.func) in CACHE_DECORATORS):
+                    is_cache = True
+                inner = inner.func if isinstance(inner.func, ast.Call) else (inner.args[0] if inner.args else None)
+            if is_cache:
+                ctx.ob(R, f.qname, f"{n}: the module does not rebind the name to a caching wrapper", False,
+                       f"`{norm(s)[:90]}`: every request of the same (dim, order) after the first receives the arrays of the first, including whatever "
+                       "an earlier caller did to them in place", s, evidence=True)
+            else:
+                ctx.ob(R, f.qname, f"{n}: the module does not rebind the name", False, f"`{norm(s)[:90]}`: rebinding not understood", s)
 
 
 def consumer_selections(ctx):
